@@ -317,6 +317,18 @@ pub fn run(ctx: &Ctx) {
     // one list with more than 2^16 entries in every tier
     let wide = vec![ListCase { ds: (0..70_000u32).map(|i| EDelta { gap: u64::from(i % 3 == 0), run: 1 + (i % 2), len: 1 + (i % 300), omode: [0u8, 0, 1][(i % 3) as usize], off: u64::from(i) * 1000 }).collect(), codec: 1 + (ctx.seed % 4) as u8, asyncw: ctx.seed % 2 == 1, params: codec::Params::default() }];
     crate::engine::run_list(ctx, "list-over-65536-entries", &wide, check_case);
+    // uncompressed directories whose first bytes are a codec's magic number (31 = 0x1f entries and a first id that
+    // starts with 0x8b: gzip; 40 = 0x28 entries, first id b5 2f, second delta fd ..: zstd)
+    let mk = |n: usize, first: u64, second_gap: u64| -> Vec<EDelta> {
+        (0..n).map(|i| EDelta { gap: if i == 0 { first } else if i == 1 { second_gap } else { (i % 3) as u64 }, run: 1, len: 10 + i as u32, omode: (i % 2) as u8, off: 1000 * i as u64 }).collect()
+    };
+    let mut magic: Vec<ListCase> = Vec::new();
+    for (n, first, second_gap) in [(31usize, 139u64, 0u64), (31, 267, 1), (31, 1035, 0), (31, 1035 + 128 * 7, 2), (40, 6069, 252), (40, 6069, 252 + 128), (30, 139, 0), (32, 139, 0)] {
+        for asyncw in [false, true] {
+            magic.push(ListCase { ds: mk(n, first, second_gap), codec: 1, asyncw, params: codec::Params::default() });
+        }
+    }
+    crate::engine::run_list(ctx, "uncompressed-bytes-that-start-with-a-codec-magic", &magic, check_case);
     run_proptest(ctx, "random-big-lists", PtCfg { lanes: ctx.lanes, cases: ctx.tier.pick(2, 12), max_shrink: 64 }, || big_strategy(ctx.tier.pick(40_000, 100_000)), check_case);
     for c in ["offset-elided", "offset-explicit-after-0", "offset-zero-after-0", "leaf-pointer", "varint>=5bytes", "ends-on-last-tile-id", "after-a-refused-write-on-the-same-thread", "codec-brotli", "codec-gzip", "codec-zstd", "writer-async"] {
         ctx.rec.floor(c, 20);
@@ -336,7 +348,7 @@ pub fn replay(sub: &str, case: &Value) -> Option<CaseResult> {
         })());
     }
     match sub {
-        "random-lists" | "random-big-lists" | "regular-compressible-lists" | "list-over-65536-entries" => Some(check_case(&super::de(case)?)),
+        "random-lists" | "random-big-lists" | "regular-compressible-lists" | "list-over-65536-entries" | "uncompressed-bytes-that-start-with-a-codec-magic" => Some(check_case(&super::de(case)?)),
         _ => None,
     }
 }
